@@ -98,7 +98,7 @@ func (h *hctx) refuse(n ast.Node, format string, a ...interface{}) {
 
 // callees whose calls are skipped: logging, tracing, and wiring the node model does not contain
 var hIgnoredPrefixes = []string{"log.", "span.", "otel.", "m.spansIndex.", "monitoredChan.", "m.channelMonitor.", "m.transportOptions.SetOptions",
-	"transportConfigurer", "m.transportConfigurers.", "context.", "cancel", "trace.", "attribute."}
+	"transportConfigurer", "m.transportConfigurers.", "context.", "cancel", "trace.", "attribute.", "datatransfer.FromOptions", "tc.", "m.channelSubscriptions."}
 
 func calleeString(c *ast.CallExpr) string { return strings.Replace(exprString(c.Fun), "r.manager.", "m.", 1) }
 
@@ -380,6 +380,9 @@ func (h *hctx) expr(e ast.Expr, env henv) hv {
 			}
 			return hv{coq: fmt.Sprintf("{| v_type := %s; v_node := %s |}", ty, nd), kind: "voucher"}
 		case "datatransfer.ChannelID":
+			if len(x.Elts) == 0 {
+				return hv{coq: "no_chid", kind: "chid"}
+			}
 			f := map[string]string{}
 			for _, el := range x.Elts {
 				kv, ok := el.(*ast.KeyValueExpr)
@@ -605,7 +608,8 @@ func (h *hctx) effect(c *ast.CallExpr, env henv) (heffect, bool) {
 			}
 			ok := h.gensym("ok")
 			p := fmt.Sprintf("exec (ICreate (create_new %s %s %s %s %s %s %s %s))", arg(0, "N"), arg(1, "N"), arg(2, "N"), arg(3, "node"), arg(4, "voucher"), arg(5, "N"), arg(6, "N"), arg(7, "N"))
-			return heffect{prog: p, binder: ok, results: []hv{{kind: "opaque"}, retOk(ok, "ROther")}}, true
+			cn := fmt.Sprintf("(chan_id (create_new %s %s %s %s %s %s %s %s))", arg(0, "N"), arg(1, "N"), arg(2, "N"), arg(3, "node"), arg(4, "voucher"), arg(5, "N"), arg(6, "N"), arg(7, "N"))
+			return heffect{prog: p, binder: ok, results: []hv{{coq: cn, kind: "chid"}, retOk(ok, "ROther")}}, true
 		case "SetDataLimit":
 			r := h.gensym("r")
 			p := fmt.Sprintf("(r0 <- exec (ISetLimit %s %s) ;; Ret (ret_of_send r0))", h.chidArg(c.Args[0], env), arg(1, "N"))
@@ -962,6 +966,21 @@ func (h *hctx) seq(list []ast.Stmt, env henv, tail tailFn) string {
 					return h.assignEffect(s.Lhs, s.Tok == token.DEFINE, ef, env, s, rest)
 				}
 				callee := calleeString(r)
+				if callee == "m.newRequest" && len(s.Lhs) == 2 && len(r.Args) == 6 {
+					a := func(i int, kind string) string {
+						v := h.expr(r.Args[i], env)
+						if v.kind != kind {
+							h.refuse(r.Args[i], "argument %d of newRequest is a %s, expected %s", i+1, v.kind, kind)
+						}
+						return paren(v.coq)
+					}
+					tid, req := h.gensym("tid"), h.gensym("req")
+					eS, eN := env.copy(), env.copy()
+					eS[lhsName(s.Lhs[0])], eS[lhsName(s.Lhs[1])] = hv{coq: req, kind: "msg"}, retK("ROk")
+					eN[lhsName(s.Lhs[0])], eN[lhsName(s.Lhs[1])] = hv{kind: "undef"}, retK("ROther")
+					return fmt.Sprintf("%s <- exec INextId ;;\n  match new_request %s false %s %s %s %s with\n  | None => %s\n  | Some %s => %s\n  end",
+						tid, tid, a(2, "bool"), a(3, "voucher"), a(4, "N"), a(1, "node"), rest(eN), req, rest(eS))
+				}
 				if callee == "message.NewRequest" && len(s.Lhs) == 2 {
 					a := func(i int, kind string) string {
 						v := h.expr(r.Args[i], env)
@@ -1602,6 +1621,12 @@ func genHandlers(repo, out string, events map[string]bool) {
 			params: map[string]hv{"#self": self, "chid": {coq: "k", kind: "chid"}, "result": {coq: "vr", kind: "valres"}}, results: []string{"ret"}, resultType: "prog nret"},
 		{file: "impl/impl.go", recv: "manager", name: "UpdateValidationStatus", coqName: "gen_UpdateValidationStatus", binders: "(self : N) (k : chid) (vr : valres)",
 			params: map[string]hv{"#self": self, "chid": {coq: "k", kind: "chid"}, "result": {coq: "vr", kind: "valres"}}, results: []string{"ret"}, resultType: "prog nret"},
+		{file: "impl/impl.go", recv: "manager", name: "OpenPushDataChannel", coqName: "gen_OpenPushDataChannel", binders: "(self : N) (to : N) (v : voucher) (basecid selector : N)",
+			params: map[string]hv{"#self": self, "requestTo": {coq: "to", kind: "N"}, "voucher": {coq: "v", kind: "voucher"}, "baseCid": {coq: "basecid", kind: "N"}, "selector": {coq: "selector", kind: "node"}, "options": {kind: "opaque"}},
+			results: []string{"chid", "ret"}, resultType: "prog (chid * nret)"},
+		{file: "impl/impl.go", recv: "manager", name: "OpenPullDataChannel", coqName: "gen_OpenPullDataChannel", binders: "(self : N) (to : N) (v : voucher) (basecid selector : N)",
+			params: map[string]hv{"#self": self, "requestTo": {coq: "to", kind: "N"}, "voucher": {coq: "v", kind: "voucher"}, "baseCid": {coq: "basecid", kind: "N"}, "selector": {coq: "selector", kind: "node"}, "options": {kind: "opaque"}},
+			results: []string{"chid", "ret"}, resultType: "prog (chid * nret)"},
 	}
 	var b strings.Builder
 	b.WriteString("(* GENERATED by tools/dt2coq (handlers.go) from impl/utils.go, impl/restart.go, impl/impl.go, impl/events.go and the event\n   methods of channels/channels.go -- do not edit *)\n")
